@@ -39,10 +39,14 @@ type Call struct {
 	BL   int  `json:"bl,omitempty"`
 	// the literal input is a sub-slice backing[BOff : BOff+len(B)] of a larger
 	// caller buffer with BPad spare bytes of capacity behind it
-	BOff int    `json:"boff,omitempty"`
-	BPad int    `json:"bpad,omitempty"`
-	U    uint32 `json:"u,omitempty"`
-	C    int    `json:"c,omitempty"`
+	BOff int `json:"boff,omitempty"`
+	BPad int `json:"bpad,omitempty"`
+	// BW > 0: the caller buffer is not fresh but long-lived buffer BW of the run
+	// (a caller that reuses one buffer for successive inputs): B is written into it
+	// at BOff and stays there until the buffer's next use overwrites it
+	BW int    `json:"bw,omitempty"`
+	U  uint32 `json:"u,omitempty"`
+	C  int    `json:"c,omitempty"`
 	// pseudo-operations
 	L    int    `json:"l,omitempty"`    // ledger / record index
 	Mode uint64 `json:"mode,omitempty"` // scribble mode and pattern
